@@ -7,6 +7,7 @@ from .. import gen_prog as GP
 
 def check_location(src_by_file, d):
     """d = code@file:start-end:line:offset:status.  Returns None or a complaint."""
+    d = d.split("#")[0]
     m = re.match(r"(\d+)@(.*):(\d+)-(\d+):(\d+):(\d+):(.*)$", d)
     if not m: return "unparsable diagnostic " + d
     code, fname, s, e, line, off, status = m.group(1), m.group(2), int(m.group(3)), int(m.group(4)), int(m.group(5)), int(m.group(6)), m.group(7)
@@ -107,12 +108,31 @@ def run(tier):
             nondet += 1
             ck.violation("nondeterministic", "three runs of the same input differ (verdict, diagnostics or IR text)",
                          "source:\n%s\nrun hashes: %s" % (src, [hashlib.sha1(repr(o).encode()).hexdigest()[:10] + " " + o[0][:60] for o in outs]))
-    ck.log("determinism: %d inputs x 3 processes, %d differ" % (len(det), nondet))
+    # the rendered diagnostics too (codes, locations, messages, secondary labels), including declaration
+    # cycles through several constants and structures, where the reported names could depend on hashing
+    from . import c11
+    r11 = random.Random(ck.seed + 1)
+    det2 = [(c[0], c[2]) for c in allc[: (200 if tier == "quick" else 3000)]]
+    for i in range(200 if tier == "quick" else 4000):
+        names, kinds, decls, edges, order = c11.graph_module(r11)
+        if c11.has_cycle(names, edges): det2.append(("cy%d" % i, c11.render(names, kinds, decls, edges, order)[0]))
+    for i, k in enumerate((2, 3, 4, 5)):
+        cyc = "".join("const K%d: usize = K%d + 1;\n" % (j, (j + 1) % k) for j in range(k))
+        det2.append(("cc%d" % i, cyc + "fn main()\n{\n}\n"))
+        det2.append(("cs%d" % i, "const H: usize = |:P|;\n" + "".join("const T%d: usize = %s;\n" % (j, "H" if j == 0 else "T%d" % (j - 1)) for j in range(k)) + "struct P\n{\n\tpayload: [T%d]u8,\n}\nfn main()\n{\n}\n" % (k - 1)))
+    druns = [C.run_harness("diag", det2, ck.work + "/ddet%d" % k, jobs=3 + 4 * k) for k in range(4)]
+    for cid, src in det2:
+        outs = [tuple(r.get(cid, ["missing"])) for r in druns]
+        if any(o[0].startswith("crash") or o[0].startswith("panic") or o[0] == "timeout" for o in outs): continue
+        if len(set(outs)) != 1:
+            nondet += 1
+            ck.violation("nondeterministic-diagnostics", "four runs of the same input render different diagnostics", "source:\n%s\nruns: %s" % (src, sorted(set(outs))))
+    ck.log("determinism: %d inputs x 3 processes (verdict + IR), %d inputs x 4 processes (rendered diagnostics), %d differ" % (len(det), len(det2), nondet))
     if not proof_ok:
         ck.violation("tie-broken:proof", "Props/C13.v no longer checks (a code without a section in docs/errors.md, or a duplicated code)", getattr(ck, "proof_output", "")[-2500:])
     ck.coverage.update(
         evaluations=len(allc) + 3 * len(det), distinct_nontrivial=len(codes_seen) + len({c[2] for c in allc}),
-        rule="diag stream: mutated corpus (tests/samples, examples, core, vendor), generated programs with 1-3 injected faults, token soup, CRLF and multi-byte variants, known-identifier faults; every reported location must lie in the file, start on the reported line at the reported column and render in 4 colour/charset configurations; determinism: 3 fresh processes per input, verdict + diagnostics + IR text compared byte for byte; distinct = distinct inputs + distinct codes observed",
+        rule="diag stream: mutated corpus (tests/samples, examples, core, vendor), generated programs with 1-3 injected faults, token soup, CRLF and multi-byte variants, known-identifier faults; every reported location must lie in the file, start on the reported line at the reported column and render in 4 colour/charset configurations; determinism: 3 fresh processes per input, verdict + diagnostics + IR text compared byte for byte, and the rendered text of every diagnostic (digest) across 4 processes, including declaration cycles through 2-5 constants and a structure; distinct = distinct inputs + distinct codes observed",
         verdicts=dict(stats), codes_observed=dict(codes_seen.most_common(60)), location_problems=bad, nondeterministic=nondet,
         samples=[dict(kind=allc[i][1], source=allc[i][2][:400], result=impl.get(allc[i][0], ["?"])) for i in (0, 5, len(allc) - 1)])
     ck.assumptions += ["ariadne's rendering itself is not modelled; rendering is exercised, not proved", "hash-seed effects are sampled over 3 processes"]
